@@ -111,6 +111,8 @@ class Compiler:
 
         # Process the ORDER-BY clause.
         new_targets, order_spec = self._compile_order_by(node.order_by, c_targets)
+        if group_indexes is None and any(c_target.is_aggregate for c_target in new_targets):
+            raise CompilationError('aggregates are not allowed in ORDER BY of a non-aggregate query')
         c_targets.extend(new_targets)
 
         # If this is an aggregate query (it groups, see list of indexes), check that
